@@ -814,12 +814,15 @@ class FnEmitter:
         if op in ('add', 'sub', 'mul', 'and', 'or', 'xor'):
             cop = {'add': '+', 'sub': '-', 'mul': '*', 'and': '&', 'or': '|', 'xor': '^'}[op]
             return E.mask('(%s)%s %s (%s)%s' % (wt, A, cop, wt, B), t)
+        # LLVM shifts by >= width yield poison, and -O1 code computes such values speculatively (guarded by a select);
+        # they are made total here (result 0 resp. sign fill) so that the engine's undefined-shift check is not triggered by dead values
+        bw = t.bits
         if op == 'shl':
-            return E.mask('(%s)%s << %s' % (wt, A, B), t)
+            return E.mask('((%s) < %d ? ((%s)%s << (%s)) : (%s)0)' % (B, bw, wt, A, B, wt), t)
         if op == 'lshr':
-            return E.mask('(%s)%s >> %s' % (wt, A, B), t)
+            return E.mask('((%s) < %d ? ((%s)%s >> (%s)) : (%s)0)' % (B, bw, wt, A, B, wt), t)
         if op == 'ashr':
-            return E.mask('(%s)(%s >> %s)' % (wt, E.sx(A, t), B), t)
+            return E.mask('(%s)((%s) < %d ? (%s >> (%s)) : (%s >> %d))' % (wt, B, bw, E.sx(A, t), B, E.sx(A, t), bw - 1), t)
         if op == 'udiv':
             return E.mask('(%s)%s / (%s)%s' % (wt, A, wt, B), t)
         if op == 'urem':
